@@ -58,12 +58,17 @@ NONDET_EXACT = {'os.urandom', 'os.getpid', 'id', 'hash', 'os.listdir', 'os.scand
                 'monotonic', 'os.getrandom', 'tempfile.mktemp', 'tempfile.mkstemp', 'socket.gethostname', 'platform.node',
                 'getpass.getuser', 'os.getlogin'}
 # deterministic members of the prefixes above
-DET_OK = {'time.sleep', 'random.seed', 'datetime.timedelta', 'datetime.datetime.strptime', 'datetime.datetime.fromisoformat',
+DET_OK = {'time.sleep', 'random.seed', 'random.Random', 'datetime.timedelta', 'datetime.datetime.strptime', 'datetime.datetime.fromisoformat',
           'datetime.date', 'time.strftime', 'datetime.datetime.fromtimestamp'}
+
+
+DRAW_METHODS = {'?.random', '?.randint', '?.choice', '?.choices', '?.shuffle', '?.sample', '?.getrandbits', '?.uniform', '?.randrange'}
 
 
 def nondet_source(ext_name):
     """ext_name: dotted name of an external callee (without the 'ext:' prefix)."""
+    if ext_name in DRAW_METHODS:
+        return True
     if ext_name in DET_OK:
         return False
     if ext_name in NONDET_EXACT:
